@@ -70,6 +70,21 @@ _h('close_tuple', 'isclose tuple<float,float> pairs; ' + FA, dbg_kf=False, backe
 _h('tuple_mixed', 'tuple<size_t, static_vector, optional<static_vector>> pairs, all members symbolic')
 
 PENDING_FINDINGS = []
-OUTSIDE = []
-ASSUMPTIONS = []
-CLAIM = dict(text='', note='')
+OUTSIDE = [
+ 'ndarray pairs backed by std::vector (ndarray_t<std::vector,std::vector>): quick tier limited to <= 4 cells with the dims as per-query constants; larger ones run out of memory (5.5 GB) - see the thorough tier',
+ 'views as operands (isequal(view, array)): not built into a harness',
+ 'isclose wrappers (arrays, maybe, either, tuple) over ALL float bit patterns only in the thorough tier; the quick tier draws element values and eps from an 8-value alphabet '
+ '(each FP comparison that must be proven equivalent costs 10-40 s of SAT time); the scalar isclose is decided over all bit patterns in both tiers',
+ 'isequal/isclose of two fixed-dim std::array-shaped arrays of different dim for isclose (does not compile: static_assert) ; index arrays of different compile-time length (does not compile)',
+ 'extents > 3 (4 for bounded-dim kinds), dims > 3, lengths > 4; bool / vector<bool> operands; slice / ellipsis / attribute operands; apply_isequal / apply_isclose (thin wrappers)',
+ 'NMTOOLS_ISCLOSE_NAN_HANDLING / INF_HANDLING builds (default 0)',
+]
+ASSUMPTIONS = ['IEEE-754 binary32/64 as implemented by CBMC\'s float encoding; the symmetry of the reference |a-b| < eps is itself decided by the solver (close_lemma)',
+               'cells beyond the logical length of bounded vectors are symbolic inputs: a comparison that reads them is visible as a wrong result; utl containers additionally report every index >= size() through the NMTOOLS_VERIF hook']
+CLAIM = dict(
+ text='For index arrays (static_vector / std::array / std::vector in every pairing, lengths 0..4, all 64-bit values, stale capacity cells symbolic), scalars, hybrid / fixed / bounded-dim / dynamic ndarrays '
+      '(same shape, same size with another shape, other sizes, other dims), optional (std and utl), variant and tuple operands the solver shows for BOTH call orders: isequal(a,b) == (same dim and shape and all elements equal), '
+      'isclose(a,b,eps) == (same shape and |a-b| < eps for all elements, NaN never close), Nothing==Nothing, Nothing!=value, either/tuple member-wise; no element outside an operand\'s logical extent influences the result or is read '
+      'through a hooked accessor. In the NDEBUG build operands of different length/shape/dim return false (the repair holds). The asserts-on build is shown to agree wherever lengths/shapes match.',
+ note='Pending findings (excluded regions): asserts-on build aborts on mismatching operands; isequal(int array, size_t array) truncates to int; isclose on unsigned/int/double operands (wrap, float rounding); '
+      'isclose(either, value, eps) ignores eps. Bounds as stated per harness. Trusted: clang-14 -O1 lowering, engine/ll2c.py, CBMC float/bit-vector encoding (cadical for FP queries).')
